@@ -38,7 +38,7 @@ LO = 693596; HI = 839693
 MONTHS = ['January', 'February', 'March', 'April', 'May', 'June', 'July', 'August', 'September', 'October', 'November', 'December']
 DATE_SP = ['date', 'tuple', 'int_ymd', 'ordinal', 'np_D', 'ymd8', 'dBY', 'BdY', 'dbY'] + \
           ['%s:%s:%s:%s' % (k, sep, pad, dia) for k in ('dmy', 'mdy') for sep in '-/. ' for pad in (0, 1) for dia in ('uk', 'us')]
-TIME_SP = ['datetime', 'np_us', 'np_ns', 'pdts', 'iso', 'tuple_hms', 'ymd', 'dt2str']
+TIME_SP = ['datetime', 'np_us', 'np_ns', 'np_s', 'pdts', 'iso', 'iso_space', 'tuple_hms', 'ymd', 'dt2str']
 
 def fields(t):
     d = us2dt(t)
@@ -73,6 +73,8 @@ def build_call(case):
     if sp == 'np_ns': return (lambda: dt(np.datetime64(T).astype('datetime64[ns]'))), ('t', t)
     if sp == 'pdts': return (lambda: dt(pd.Timestamp(T))), ('t', t)
     if sp == 'iso': return (lambda: dt(T.isoformat())), ('t', t)
+    if sp == 'iso_space': return (lambda: dt(T.isoformat(' '))), ('t', t)
+    if sp == 'np_s': return (lambda: dt(np.datetime64(T).astype('datetime64[s]'))), ('t', t - T.microsecond)
     if sp == 'ymd8': return (lambda: dt('%04d%02d%02d' % (y, m, d))), ('t', t)
     if sp == 'dBY': return (lambda: dt('%d %s %d' % (d, MONTHS[m - 1], y), dialect=case.get('dia', 'uk'))), ('t', t)
     if sp == 'BdY': return (lambda: dt('%s %d %d' % (MONTHS[m - 1], d, y), dialect=case.get('dia', 'uk'))), ('t', t)
@@ -141,7 +143,7 @@ def coq_case(case):
         k, sep, pad, dia = sp.replace('ymdstr:', '').split(':')
         a, b = (d, m) if k == 'dmy' else (m, d)
         return '(SpDMY %s %d %d %d)' % ('true' if dia == 'us' else 'false', a, b, y)
-    return '(SpFields %d %d %d %d)' % (y, m, d, tod if sp not in ('date', 'np_D', 'ymd8', 'dBY', 'BdY', 'dbY') else 0)
+    return '(SpFields %d %d %d %d)' % (y, m, d, (tod - tod % 1000000) if sp == 'np_s' else tod if sp not in ('date', 'np_D', 'ymd8', 'dBY', 'BdY', 'dbY') else 0)
 
 def nontrivial(case, result):
     sp = case['sp']
